@@ -71,9 +71,11 @@ def c09_program(rng):
         core = A.Union(pf, *subs)
     elif r == 7: core = A.GreedyRange(A.Select(c09_alt(rng, 0), c09_alt(rng, 0)))
     else: core = A.Peek(A.Select(c09_alt(rng), A.Error))
-    r2 = rng.randrange(5)
-    if r2 == 4:     # inside a length-limited region that does not start at offset 0 (end-relative targets are relative to the region's end)
-        return A.Struct(A.Renamed("h", A.Bytes(rng.choice([1, 2, 3]))), A.Renamed("p", A.Prefixed(A.Alias("Byte"), A.Struct(A.Renamed("x", core), A.Renamed("r", A.GreedyBytes)))), A.Renamed("t", A.Tell))
+    r2 = rng.randrange(6)
+    if r2 >= 4:     # inside a length-limited region that does not start at offset 0 (end-relative targets are relative to the region's end)
+        body = A.Struct(A.Renamed("x", core), A.Renamed("r", A.GreedyBytes))
+        region = A.FixedSized(rng.choice([3, 4, 5]), body) if rng.random() < 0.7 else A.Prefixed(A.Alias("Byte"), body)
+        return A.Struct(A.Renamed("h", A.Bytes(rng.choice([1, 2, 3]))), A.Renamed("p", region), A.Renamed("t", A.Tell))
     if r2 == 0: return core
     if r2 == 1: return A.Struct(A.Renamed("x", core), A.Renamed("rest", A.GreedyBytes))
     if r2 == 2: return A.Struct(A.Renamed("h", A.Bytes(rng.choice([1, 2]))), A.Renamed("x", core), A.Renamed("t", A.Tell), A.Renamed("n", A.Alias("Byte")))
